@@ -105,29 +105,38 @@ loops — these three stay with the expression ties above (`set_`, `onBlock_`, `
 
 /-- `Transmit`: exits 1, 2 = a gob encoding error (never for the model's transmits), 3 = `return fmt.Errorf("report
     already transmitted")` when the key is in the index, 4 = `return nil`; `c19TransmitTreeVal` is 1 where the source
-    returns an error and 0 where it returns `nil`.  The model's answer is `true` exactly where the source returns
-    `nil`, it queues and records the transmit exactly at exit 4, and an encoding error never ends in `nil`. -/
+    returns an error and 0 where it returns `nil`; every exit is a `return`.  The model's answer is `true` exactly where
+    the source returns `nil`, it queues and records the transmit exactly at exit 4, and an encoding error (either of
+    the two) never ends in `nil`. -/
 theorem transmit_tree_matches_source (tl : TL) (t : Transmit) :
     let found := tl.transmitted.any (sameKey t)
-    (tl.transmit t).2 = decide (Gen.Src.c19TransmitTreeVal false found (Gen.Src.c19TransmitTree false found) = 0) ∧
+    (tl.transmit t).2 =
+      decide (Gen.Src.c19TransmitTreeVal false false found (Gen.Src.c19TransmitTree false false found) = 0) ∧
     (tl.transmit t).1 =
-      (if Gen.Src.c19TransmitTree false found = 4
+      (if Gen.Src.c19TransmitTree false false found = 4
        then { queue := tl.queue ++ [t], transmitted := tl.transmitted ++ [t] } else tl) ∧
-    ∀ f, Gen.Src.c19TransmitTreeVal true f (Gen.Src.c19TransmitTree true f) = 1 := by
+    (∀ e₁ e₂ f, (e₁ || e₂) = true →
+      Gen.Src.c19TransmitTreeVal e₁ e₂ f (Gen.Src.c19TransmitTree e₁ e₂ f) = 1) ∧
+    (∀ e₁ e₂ f, Gen.Src.c19TransmitTreeKind (Gen.Src.c19TransmitTree e₁ e₂ f) = 1) := by
   intro found
-  refine ⟨?_, ?_, by intro f; simp [Gen.Src.c19TransmitTree, Gen.Src.c19TransmitTreeVal]⟩
+  refine ⟨?_, ?_, ?_, ?_⟩
   · unfold TL.transmit Gen.Src.c19TransmitTree Gen.Src.c19TransmitTreeVal
     cases h : tl.transmitted.any (sameKey t) <;> simp [found, h]
   · unfold TL.transmit Gen.Src.c19TransmitTree
     cases h : tl.transmitted.any (sameKey t) <;> simp [found, h]
+  · intro e₁ e₂ f h
+    cases e₁ <;> cases e₂ <;> cases f <;> simp_all [Gen.Src.c19TransmitTree, Gen.Src.c19TransmitTreeVal]
+  · intro e₁ e₂ f
+    cases e₁ <;> cases e₂ <;> cases f <;> simp [Gen.Src.c19TransmitTree, Gen.Src.c19TransmitTreeKind]
 
 /-- `Load`: exit 1 = the early `return` on an empty queue (the block gets no perform transaction); otherwise the body
     runs to its end (exit 0) whether or not there is a progress telemetry -/
 theorem load_tree_matches_source (tl : TL) (hasProgress : Bool) :
     (tl.load).2.isEmpty = decide (Gen.Src.c19LoadTree tl.queue.length hasProgress = 1) ∧
-    (Gen.Src.c19LoadTree tl.queue.length hasProgress = 1 ∨ Gen.Src.c19LoadTree tl.queue.length hasProgress = 0) := by
+    (Gen.Src.c19LoadTree tl.queue.length hasProgress = 1 ∨ Gen.Src.c19LoadTree tl.queue.length hasProgress = 0) ∧
+    Gen.Src.c19LoadTreeKind 1 = 1 := by
   unfold Gen.Src.c19LoadTree
-  cases h : tl.queue <;> cases hasProgress <;> simp [TL.load, h]
+  cases h : tl.queue <;> cases hasProgress <;> simp [TL.load, h, Gen.Src.c19LoadTreeKind]
 
 /-- `GetLatestEvents`: exit 1 = `return nil, nil` before the first block; exit 2 = `return events, nil` after the
     look-back loop -/
@@ -162,5 +171,84 @@ theorem get_tree_matches_source {α} (m : SKM α) (k : String) :
     m.get k = if Gen.Src.c19GetTree (m.vals.lookup k).isSome = 1 then m.vals.lookup k else none := by
   unfold SKM.get Gen.Src.c19GetTree
   cases m.vals.lookup k <;> simp
+
+/-! ### what the exits are and what they return (`…Kind`, `…Nil<i>`), and marked effects (`"marks"`) -/
+
+/-- `GetLatestEvents`: both exits are `return`s; the events result is the literal `nil` exactly at the exit taken
+    without a latest block, the error result is `nil` at both -/
+theorem latestEvents_tree_results (noLatest : Bool) :
+    Gen.Src.c19LatestEventsTreeKind (Gen.Src.c19LatestEventsTree noLatest) = 1 ∧
+    Gen.Src.c19LatestEventsTreeNil1 (Gen.Src.c19LatestEventsTree noLatest) = noLatest ∧
+    Gen.Src.c19LatestEventsTreeNil2 (Gen.Src.c19LatestEventsTree noLatest) = true := by
+  cases noLatest <;> simp [Gen.Src.c19LatestEventsTree, Gen.Src.c19LatestEventsTreeKind,
+    Gen.Src.c19LatestEventsTreeNil1, Gen.Src.c19LatestEventsTreeNil2]
+
+/-- `createPluginTransmitEvents`: both exits are `return`s; no events (`nil`) together with a non-nil error exactly
+    when the report does not decode, events together with a `nil` error otherwise -/
+theorem pluginEvents_tree_results (decodeFails : Bool) :
+    Gen.Src.c19PluginEventsTreeKind (Gen.Src.c19PluginEventsTree decodeFails) = 1 ∧
+    Gen.Src.c19PluginEventsTreeNil1 (Gen.Src.c19PluginEventsTree decodeFails) = decodeFails ∧
+    Gen.Src.c19PluginEventsTreeNil2 (Gen.Src.c19PluginEventsTree decodeFails) = !decodeFails := by
+  cases decodeFails <;> simp [Gen.Src.c19PluginEventsTree, Gen.Src.c19PluginEventsTreeKind,
+    Gen.Src.c19PluginEventsTreeNil1, Gen.Src.c19PluginEventsTreeNil2]
+
+/-- `Get`: both exits are `return`s and neither returns a literal `nil` (the results are `v, ok` and
+    `getZero[T](), false`) -/
+theorem get_tree_results (found : Bool) :
+    Gen.Src.c19GetTreeKind (Gen.Src.c19GetTree found) = 1 ∧
+    Gen.Src.c19GetTreeNil1 (Gen.Src.c19GetTree found) = false ∧
+    Gen.Src.c19GetTreeNil2 (Gen.Src.c19GetTree found) = false := by
+  cases found <;> simp [Gen.Src.c19GetTree, Gen.Src.c19GetTreeKind, Gen.Src.c19GetTreeNil1, Gen.Src.c19GetTreeNil2]
+
+/-- `updateBlock`: the assignment `rt.latest = &block` is reached (exit 1, a marked effect) exactly when the model
+    moves `latest`; otherwise the body ends without it -/
+theorem updateBlock_tree_matches_source (rt : RT) (b : Block) :
+    rt.onBlock b =
+      (if Gen.Src.c19UpdateBlockTree rt.latest.isNone false true
+            (match rt.latest with | some l => bigCmp b.number l.number | none => 0) = 1
+       then { rt with latest := some b } else rt) ∧
+    Gen.Src.c19UpdateBlockTreeKind 1 = 4 := by
+  refine ⟨?_, rfl⟩
+  unfold RT.onBlock Gen.Src.c19UpdateBlockTree bigCmp
+  cases h : rt.latest with
+  | none => simp
+  | some l =>
+    simp only [Option.isNone_some, Bool.false_or, Bool.true_and]
+    by_cases h1 : b.number > l.number
+    · have h2 : ¬ b.number < l.number := by omega
+      have h3 : ¬ b.number = l.number := by omega
+      simp [h1, h2, h3]
+    · by_cases h2 : b.number < l.number
+      · simp [h1, h2]
+      · have h3 : b.number = l.number := by omega
+        simp [h3]
+
+/-- `Set`: `m.keys = append(m.keys, key)` and the `sort.Slice` call are reached exactly for a key that is not bound
+    (then the model inserts it in order); for a bound key the first marked statement reached is the value write -/
+theorem set_tree_matches_source {α} (lt : String → String → Bool) (m : SKM α) (k : String) (v : α) :
+    (m.set lt k v).keys =
+      (if Gen.Src.c19SetTree (m.get k).isSome = 1 then insertSorted lt k m.keys else m.keys) ∧
+    (Gen.Src.c19SetTree (m.get k).isSome = 1 ↔ Gen.Src.c19SetSortTree (m.get k).isSome = 1) ∧
+    (Gen.Src.c19SetTree (m.get k).isSome = 1 ∨ Gen.Src.c19SetTree (m.get k).isSome = 2) ∧
+    (m.set lt k v).get k = some v ∧
+    Gen.Src.c19SetTreeKind 1 = 4 ∧ Gen.Src.c19SetTreeKind 2 = 4 ∧ Gen.Src.c19SetSortTreeKind 1 = 4 := by
+  refine ⟨?_, ?_, ?_, ?_, rfl, rfl, rfl⟩
+  · unfold SKM.set Gen.Src.c19SetTree
+    cases (m.get k).isSome <;> simp
+  · cases (m.get k).isSome <;> simp [Gen.Src.c19SetTree, Gen.Src.c19SetSortTree]
+  · cases (m.get k).isSome <;> simp [Gen.Src.c19SetTree]
+  · unfold SKM.set
+    split <;> simp [SKM.get, List.lookup_cons]
+
+/-- `Keys`: the clamp `count = keysLen` is reached (exit 1, a marked effect) exactly when the model clamps; otherwise
+    the body goes straight on to `return keys` (exit 2, a `return`) -/
+theorem keys_tree_matches_source {α} (m : SKM α) (count : Nat) :
+    m.keysDesc count =
+      ((List.range (if Gen.Src.c19KeysTree count m.keys.length = 1 then m.keys.length else count)).map
+        fun j => m.keys.getD (m.keys.length - (j + 1)) "") ∧
+    Gen.Src.c19KeysTreeKind 1 = 4 ∧ Gen.Src.c19KeysTreeKind 2 = 1 := by
+  refine ⟨?_, rfl, rfl⟩
+  unfold SKM.keysDesc Gen.Src.c19KeysTree
+  by_cases h : count > m.keys.length <;> simp [h]
 
 end AutoVerif.C19
